@@ -50,8 +50,10 @@ EXPLANATION = ("exhaustive sub-space (both tiers): all networks with <= 2 reacti
                "history; the answers under max_depth / max_count on the option cases.")
 TRUSTED_BASE = [
     "Coq 8.16.1 kernel + vm_compute (no native_compute)",
-    "hand-written model coq/model/C18_Model.v tied to synkit/CRN/Topo/{canon,automorphism}.py and the two view converters "
-    "by the per-run correspondence (view, every _refine call, permutation, label, leaves, orbits, canonical graph, VF2 count, premises)",
+    "hand-written models coq/model/C18_{Model,AttrModel,SpAttrModel,WLModel,BackendModel,DepthModel,IntIdsModel,UFModel,AutAttrModel,RunModel}.v "
+    "tied to synkit/CRN/Topo/{canon,automorphism,wl_canon}.py, synkit/CRN/Hypergraph/backend.py and the two view converters by the per-run "
+    "correspondence (view, every _refine and _label call, permutation, label, leaves, orbits, canonical graph, VF2 count / orbits, WL cells, "
+    "premises, served views of kept analyzers, answers under the options)",
     "harness encoders harness/props/C18.py (order-preserving interning of node ids: rank in Python string order; kind/role codes; "
     "the classification of a history's edits into method calls (version bumped) and edits of a side object (not bumped))",
     "blake2b digests of WLCanonicalizer do not collide on the compared views (the model ranks signatures instead of hashing them)",
@@ -61,15 +63,16 @@ TRUSTED_BASE = [
     "CPython str/tuple ordering",
 ]
 ASSUMPTIONS = ["species labels are disjoint from reaction ids (the views put both in one namespace; the collision is the known finding "
-               "C18:view-id-collision, theorem C18_species_renaming_refuted); clause 2 is therefore proved for renamings of the VIEW's nodes",
+               "C18:view-id-collision, theorem C18_species_renaming_refuted); clause 2 is therefore proved for renamings of the VIEW's nodes; "
+               "under integer_ids=True the assumption is not needed (C18_intids_species_renaming)",
                "model: default node_attr_keys=('kind',) and edge_attr_keys=('role','stoich'); integer_ids=True is computed inside the model "
                "(coq/model/C18_IntIdsModel.v; C18_intids_canon, C18_net_renamed_ids); non-default attribute selections "
                "on the bipartite view are modelled in coq/model/C18_AttrModel.v (C18_attr_default: the default selection is the base model; "
-               "C18_attr_canon_iso: clause 1 for every selection; clauses 2-4 for non-default selections are judged by the oracle; the VF2 tool under a "
-               "node selection: C18_vf2_attr_*); WL options are modelled in coq/model/C18_WLModel.v; species-view selections on the aggregates "
+               "C18_attr_canon_iso: clause 1 for every selection; C18_attr_invariant_partial / C18_attr_count_lower_partial: the first halves of clauses 2 "
+               "and 4; the second halves for non-default selections are judged by the oracle; the VF2 tool under a node selection: C18_vf2_attr_*); WL options are modelled in coq/model/C18_WLModel.v; species-view selections on the aggregates "
                "stoich_r / stoich_p in coq/model/C18_SpAttrModel.v (C18_spattr_*), on the name-dependent sets (via / rules / maps) oracle only",
                "a kept analyzer serves the current network only after edits through the hypergraph's mutating methods (documented; "
-               "C18_backend_serves_current / C18_backend_silent_edit_refuted): the oracle judges fresh analyzers only",
+               "C18_backend_serves_current / C18_backend_is_dirty_flags / C18_backend_silent_edit_refuted): the oracle judges fresh analyzers only",
                "views above 45 nodes are judged by the oracle only (the model's refinement is O(n^4) under vm_compute)",
                "stoichiometric coefficients are positive integers",
                "the property's clauses are judged without max_depth / timeout / max_count (with them: correspondence + C18_max_depth_* / "
@@ -77,7 +80,9 @@ ASSUMPTIONS = ["species labels are disjoint from reaction ids (the views put bot
 TESTED_NOT_PROVED = ["WLCanonicalizer: its canonical graph (a relabelling by digest order) is isomorphic to the view (oracle only; that its colour "
                      "cells never split a true orbit is proved for the model: C18_wl_never_splits_orbit)",
                      "VF2 enumerates exactly the self-isomorphisms (premise of C18_vf2_count, compared per case)",
-                     "graph()/orbits()/has_nontrivial_automorphism()/canonical()/iter()/detect_automorphisms() agree with summary() (oracle)"]
+                     "graph()/orbits()/has_nontrivial_automorphism()/canonical()/iter()/detect_automorphisms()/wl_canonical() agree with summary() "
+                     "(oracle; with max_depth / max_count also in the correspondence)",
+                     "second halves of clauses 2-4 for non-default attribute selections (oracle: brute-force self-maps on the selected attributes)"]
 
 KIND = {"reaction": 0, "species": 1}
 ROLE = {None: -1, "product": 0, "reactant": 1}
@@ -164,6 +169,10 @@ def _wl_obs(H, rank, inc, stoich, kw, keep=None):
     W = WW.summary()
     if keep is not None:
         keep["W"] = WW
+        # WLCanonicalizer caches its last result under a key that starts with id(G); the backend replaces G after an edit, so the
+        # address of a freed view could be handed to a later one (never observed, see notes/C18.md).  Keeping every view the kept
+        # WL analyzer has worked on alive makes the re-reads below independent of the allocator.
+        keep.setdefault("W_graphs", []).append(WW.G)
     return [S([S(sorted(rank[v] for v in o)) for o in W["orbits"]]), W["automorphism_count"]]
 
 
@@ -422,6 +431,7 @@ def _read_obs(keep, rank):
     s = C.summary()
     a = A.summary(max_count=10 ** 9, timeout_sec=None)
     w = W.summary()
+    keep.setdefault("W_graphs", []).append(W.G)
     nodes, arcs = _keyed_graph(C.G, rank)
     cn, ca = _keyed_graph(s["canon_graph"])
     out = [S(nodes), S(arcs), s["automorphism_count"], S([S(sorted(rank[v] for v in o)) for o in s["orbits"]]), S(cn), S(ca),
@@ -624,7 +634,11 @@ def _impl_vf2opts(case):
             d = detect_automorphisms(H, include_rule=inc, include_stoich=st, integer_ids=ii, max_count=k, timeout_sec=None)
             per.append([a["automorphism_count"], bool(a["stopped_early"]), len(a["sample_mappings"]), a["mapping_count_used"],
                         n_iter, d["automorphism_count"], bool(d["stopped_early"])])
-        out.append([S([S(sorted(rank[v] for v in o)) for o in full["orbits"]]), per])
+        a = CRNAutomorphism(H, include_rule=inc, include_stoich=st, integer_ids=ii).summary(timeout_sec=None)           # default max_count
+        d = detect_automorphisms(H, include_rule=inc, include_stoich=st, integer_ids=ii, timeout_sec=None)               # default max_count
+        out.append([S([S(sorted(rank[v] for v in o)) for o in full["orbits"]]), per,
+                    [a["automorphism_count"], bool(a["stopped_early"]), len(a["sample_mappings"]), a["mapping_count_used"]],
+                    [d["automorphism_count"], bool(d["stopped_early"])]])
     return out
 
 
@@ -1638,6 +1652,8 @@ ATTR_SELECTIONS = [
     dict(nk=["kind"], ek=["role", "stoich"], wl=dict(n_iter=1)),
     dict(nk=["kind"], ek=["role", "stoich"], wl=dict(n_iter=0)),
     dict(nk=["kind"], ek=["role", "stoich"], wl=dict(n_iter=2, automorphism_cap=3)),
+    dict(nk=["kind"], ek=["role", "stoich"], wl=dict(automorphism_cap=1)),          # degenerate caps: every product reaches the cap at once
+    dict(nk=["kind", "bipartite"], ek=["stoich"], wl=dict(automorphism_cap=0, n_iter=1)),
     dict(nk=["label", "kind"], ek=["stoich"], wl=dict(n_iter=3, include_in_neighbors=False)),
     dict(nk=[], ek=[], wl=dict(include_in_neighbors=False, include_out_neighbors=False)),
     dict(nk=["kind"], ek=["role", "stoich"], wl=dict(include_in_neighbors=False)),
@@ -1800,7 +1816,7 @@ def gen_cases(tier, rng):
     return cases
 
 
-LEVEL_TEXT = ("Machine-checked proof (Coq, 47 theorems, closed under the global context) over an executable model of CRNCanonicalizer / "
+LEVEL_TEXT = ("Machine-checked proof (Coq, 50 theorems, closed under the global context) over an executable model of CRNCanonicalizer / "
               "CRNAutomorphism / WLCanonicalizer, the two network views and the analyzers' cached-view state, for ALL views: the canonical graph is the view relabelled by a bijection onto "
               "k+1..k+n (clause 1); a view renamed by a map injective on its nodes and presented in any other node/arc order gets the same "
               "minimal label and the identical canonical graph (clause 2: signature/label/initial partition equivariant, generic IR leaf "
@@ -1811,10 +1827,12 @@ LEVEL_TEXT = ("Machine-checked proof (Coq, 47 theorems, closed under the global 
               "bipartite view; species view); the reported orbits of both tools are exactly the exchangeability classes (the slot-based "
               "union-find of _orbits_from_perms with its emptied slots and duplicated prefix positions is modelled and proved; so is the parent-dict "
               "union-find with path halving of CRNAutomorphism, independent of the order of the mappings; VF2 itself is an "
-              "explicit, monitored premise). Also proved: the WL colour cells never split an orbit (any selection, any option); integer_ids gives the "
-              "identical canonical graph; max_depth: early_stop=False certifies the exact answer and a bound >= |V| never stops early; a kept "
+              "explicit, monitored premise). Also proved: the WL colour cells never split an orbit (any selection, any option) and the WL estimate "
+              "never under-estimates the number of self-maps; integer_ids gives the identical canonical graph and makes clause 2 hold for EVERY "
+              "species renaming (no view-id collision); for every attribute selection: clause 1, invariance of the minimal label / leaves / count "
+              "under renaming and count >= number of selected-attribute self-maps (partial clauses 2 and 4); max_depth: early_stop=False certifies the exact answer and a bound >= |V| never stops early; a kept "
               "analyzer serves the current network after any sequence of mutating method calls (version cache of _CRNGraphBackend as a state "
-              "machine; refuted for edits behind the hypergraph's back). The model is tied to the Python code on every run by comparing the view graph, every _refine "
+              "machine = dirty flags, for every script; refuted for edits behind the hypergraph's back). The model is tied to the Python code on every run by comparing the view graph, every _refine "
               "argument/result, the canonical permutation and label string, all minimal leaves, orbits, canonical graph, the VF2 "
               "count/orbits and the decidable premises, on an exhaustive small scope plus seeded random, ring/star, long, adversarially "
               "named networks and one-object analysis sequences.")
